@@ -7,7 +7,7 @@ From Verif Require Import Json Outcome Match PatIndex State StateSpec MatchLemma
   DurableFrame DurableInv DurableSpec DurableExpiry.
 
 Definition lin_inv (s : state) (now : Z) : Prop :=
-  st_kind s = Linear /\ no_expired s now /\ ids_not_varlike s.
+  st_kind s = Linear /\ no_expired s now.
 
 (** [j] is in the storage (or the memory) of [s] and no longer in that of [s']. *)
 Definition lost (s s' : state) (j : string) : Prop :=
@@ -30,10 +30,8 @@ Qed.
 
 Lemma lin_inv_Sub s s' now : Sub s s' -> lin_inv s now -> lin_inv s' now.
 Proof.
-  intros HS (Hk & Hne & Hnv). pose proof HS as (Hk' & _ & _ & _ & HF & _).
-  split; [congruence|]. split; [eapply Sub_no_expired; eassumption|].
-  intros j Hj. apply Hnv. destruct (alookup j (st_facts s')) as [f|] eqn:E; [|congruence].
-  rewrite (HF _ _ E). discriminate.
+  intros HS (Hk & Hne). pose proof HS as (Hk' & _ & _ & _ & HF & _).
+  split; [congruence|]. eapply Sub_no_expired; eassumption.
 Qed.
 
 Lemma Clo_Sub s0 s a b : Sub s0 s -> Clo s a b -> Clo s0 a b.
@@ -55,21 +53,21 @@ Section LostGen.
   Variable rr : state -> string -> Z -> state * outcome bool.
   Variable now : Z.
   Hypothesis rr_Sub : forall s id now, Sub s (fst (rr s id now)).
-  Hypothesis rr_lost : forall s j, lin_inv s now -> is_var j = false ->
+  Hypothesis rr_lost : forall s j, lin_inv s now ->
     forall k, lost s (fst (rr s j now)) k -> Clo s j k.
 
   Lemma rem_list_lost s0 x skip : forall ids sc,
     lin_inv sc now -> Sub s0 sc ->
-    (forall j, In j ids -> is_var j = false /\ Clo s0 x j) ->
+    (forall j, In j ids -> Clo s0 x j) ->
     forall k, lost sc (fst (rem_list rr sc ids skip now)) k -> Clo s0 x k.
   Proof.
     induction ids as [|j r IH]; intros sc Hi HS Hids k; cbn [rem_list].
     - cbn [fst]. intros H. exfalso. eapply lost_refl; exact H.
-    - assert (Hids' : forall j0, In j0 r -> is_var j0 = false /\ Clo s0 x j0)
+    - assert (Hids' : forall j0, In j0 r -> Clo s0 x j0)
         by (intros; apply Hids; right; assumption).
-      destruct (String.eqb j skip); [apply IH; assumption|].
-      destruct (Hids j (or_introl eq_refl)) as [Hvj Hcj].
-      pose proof (rr_lost sc j Hi Hvj) as Hl. pose proof (rr_Sub sc j now) as HS1.
+      destruct (skipped skip j); [apply IH; assumption|].
+      pose proof (Hids j (or_introl eq_refl)) as Hcj.
+      pose proof (rr_lost sc j Hi) as Hl. pose proof (rr_Sub sc j now) as HS1.
       destruct (rr sc j now) as [s1 o]. cbn [fst] in Hl, HS1.
       assert (Hfirst : forall k0, lost sc s1 k0 -> Clo s0 x k0).
       { intros k0 Hk0. eapply Clo_trans; [exact Hcj|]. eapply Clo_Sub; [exact HS|]. apply Hl. exact Hk0. }
@@ -79,46 +77,44 @@ Section LostGen.
   Qed.
 
   Lemma delete_dependencies_lost s x :
-    lin_inv s now -> is_var x = false ->
+    lin_inv s now ->
     forall k, lost s (fst (delete_dependencies rr s x now)) k -> Clo s x k.
   Proof.
-    intros Hi Hx k. pose proof Hi as (Hk & Hne & Hnv). unfold delete_dependencies.
+    intros Hi k. pose proof Hi as (Hk & Hne). unfold delete_dependencies.
     destruct (search_state_pure s x now Hk Hne) as (found & Hs & Hfound). rewrite Hs.
     apply (rem_list_lost s x); [exact Hi|apply Sub_refl|].
-    intros j Hj. apply Hfound in Hj. destruct Hj as (fact & Hl & Hh).
-    split; [apply Hnv; congruence|].
-    rewrite dw_hit_names in Hh by exact Hx.
+    intros j Hj. apply dw_targets_In in Hj. destruct Hj as (_ & fact & Hl & Hh).
     eapply Clo_dep; [apply Clo_root|exact Hl|exact Hh].
   Qed.
 
   Lemma rem_body_lost s x :
-    lin_inv s now -> is_var x = false ->
+    lin_inv s now ->
     forall k, lost s (fst (rem_body rr s x now)) k -> Clo s x k.
   Proof.
-    intros Hi Hx k. pose proof Hi as (Hk & _). rewrite rem_body_head.
+    intros Hi k. pose proof Hi as (Hk & _). rewrite rem_body_head.
     pose proof (Sub_head s x) as HS.
     assert (Hh : lost s (fst (rem_head s x)) k -> Clo s x k).
     { intros H. apply rem_head_lost_linear in H; [|exact Hk]. subst k. apply Clo_root. }
     destruct (snd (rem_head s x)); [|exact Hh].
     rewrite fst_wrapb. intros H. apply (lost_split s (fst (rem_head s x))) in H.
     destruct H as [H|H]; [apply Hh; exact H|].
-    eapply Clo_Sub; [exact HS|]. apply delete_dependencies_lost; [eapply lin_inv_Sub; eassumption|exact Hx|exact H].
+    eapply Clo_Sub; [exact HS|]. apply delete_dependencies_lost; [eapply lin_inv_Sub; eassumption|exact H].
   Qed.
 End LostGen.
 
-Lemma rem_fuel_lost now : forall fuel s x, lin_inv s now -> is_var x = false ->
+Lemma rem_fuel_lost now : forall fuel s x, lin_inv s now ->
   forall k, lost s (fst (rem_fuel fuel s x now)) k -> Clo s x k.
 Proof.
-  induction fuel as [|f IH]; intros s x Hi Hx k; cbn [rem_fuel].
+  induction fuel as [|f IH]; intros s x Hi k; cbn [rem_fuel].
   - cbn [fst]. intros H. exfalso. eapply lost_refl; exact H.
   - apply rem_body_lost; auto. intros s0 j now0. apply rem_fuel_Sub.
 Qed.
 
 Lemma st_Rem_lost_in_closure s id now :
-  st_kind s = Linear -> no_expired s now -> ids_not_varlike s -> is_var id = false ->
+  st_kind s = Linear -> no_expired s now ->
   forall k, lost s (fst (st_Rem s id now)) k -> Clo s id k.
 Proof.
-  intros Hk Hne Hnv Hx k. assert (Hi : lin_inv s now) by (repeat split; assumption).
+  intros Hk Hne k. assert (Hi : lin_inv s now) by (repeat split; assumption).
   unfold st_Rem.
   (* nothing is expired: the purges only empty the list of noted ids *)
   assert (Hwrap : forall (r : state * outcome bool) s0,
@@ -134,7 +130,7 @@ Proof.
     destruct (snd (get_body s id now)) as [f|e|w|].
     + apply (Hwrap _ (set_pending s [])); [apply st_rem_Sub|exact Hne|].
       intros H. apply (Clo_mono (set_pending s []) s); [intros j f0 Hj; exact Hj|].
-      unfold st_rem in H. apply (rem_fuel_lost now (cascade_fuel (set_pending s [])) (set_pending s []) id Hi' Hx k).
+      unfold st_rem in H. apply (rem_fuel_lost now (cascade_fuel (set_pending s [])) (set_pending s []) id Hi' k).
       exact H.
     + apply (Hwrap _ (set_pending s [])); [apply Sub_refl|exact Hne|].
       cbn [fst]. intros H. exfalso. eapply (lost_refl s); exact H.
